@@ -151,6 +151,7 @@ theorem opExt_hCustom (σ : State S) (kind : Nat) (label : String) (args : List 
   unfold hCustom
   refine opExt_bindR σ _ _ (fun _ _ => ?_)
   refine opExt_bindR σ _ _ (fun _ _ => ?_)
+  refine opExt_bindR σ _ _ (fun _ _ => ?_)
   refine opExt_bindR σ _ _ (fun t _ => ?_)
   exact opExt_pure σ _ _ (bufExt_alloc σ t _ _ _ _)
 
